@@ -1,6 +1,7 @@
 package scen
 
 import (
+	"bytes"
 	"context"
 	"encoding/json"
 	"fmt"
@@ -11,6 +12,7 @@ import (
 
 	"github.com/ipfs/go-cid"
 	"github.com/ipld/go-ipld-prime"
+	"github.com/ipld/go-ipld-prime/codec/dagjson"
 	"github.com/ipld/go-ipld-prime/datamodel"
 	"github.com/ipld/go-ipld-prime/fluent/qp"
 	cidlink "github.com/ipld/go-ipld-prime/linking/cid"
@@ -63,6 +65,10 @@ type PubOpts struct {
 	Topic       string
 	Proto       *cidlink.LinkPrototype
 	Ident       *Ident // overrides the Ed25519 identity derived from Name
+	// PadAd gives, for the ad with chain index i, the exact size its encoded
+	// block is to have (0 = as it comes); the ad is padded with a filler
+	// address.
+	PadAd func(i int) int
 }
 
 // PubNode is a publisher: real ipnisync.Publisher behind simulated servers.
@@ -190,6 +196,28 @@ func (p *PubNode) appendAd() cid.Cid {
 	}
 	if err := ad.Sign(p.Ident.Priv); err != nil {
 		panic(err)
+	}
+	if p.Opts.PadAd != nil {
+		if target := p.Opts.PadAd(i); target > 0 {
+			size := func(fill int) int {
+				ad.Addresses = []string{"/ip4/10.9.9.9/tcp/9999", "/dns4/" + strings.Repeat("x", fill) + "/tcp/1"}
+				if err := ad.Sign(p.Ident.Priv); err != nil {
+					panic(err)
+				}
+				var b bytes.Buffer
+				if err := dagjson.Encode(must(ad.ToNode()), &b); err != nil {
+					panic(err)
+				}
+				return b.Len()
+			}
+			if fill := 1 + target - size(1); fill >= 1 {
+				if got := size(fill); got != target {
+					panic(fmt.Sprintf("padding: block has %d bytes, want %d", got, target))
+				}
+			} else {
+				size(1)
+			}
+		}
 	}
 	n := must(ad.ToNode())
 	l := must(p.LS.Store(ipld.LinkContext{}, p.proto, n))
